@@ -220,7 +220,7 @@ class PoolSum(sp.Expr):
                 substitutions[idx] = values[0]
             else:
                 new_indices.append((idx, values))
-        new_expression = self.expression.xreplace(substitutions)
+        new_expression = self.expression.subs(substitutions)
         if len(new_indices) == 0:
             return new_expression
         return PoolSum(new_expression, *new_indices)
